@@ -22,8 +22,11 @@ func init() {
 		},
 		Workloads: []core.Workload{
 			{Name: "gr4j", Variant: "plain", N: core.Tiered(300, 150000), Run: c15Case},
+			// several cells with different x4 in one state array (rows padded to the widest), simulated as consecutive
+			// windows that carry the states, on Go-backed arrays or caller-owned C buffers; every cell against its own reference
+			{Name: "gr4j-multicell", Variant: "plain", N: core.Tiered(120, 20000), Run: c15Multi},
 		},
-		RequireTags: func(string) []string { return []string{"x4<1", "x4>2", "x4-integer", "hot"} },
+		RequireTags: func(string) []string { return []string{"x4<1", "x4>2", "x4-integer", "hot", "multicell:padded-rows", "multicell:c-memory"} },
 	})
 }
 
@@ -159,4 +162,94 @@ func x4Class(x4 float64) string {
 		return "x4>=2"
 	}
 	return "1<=x4<2"
+}
+
+func c15Multi(c *core.Ctx) {
+	N := c.R.IntRange(2, 4)
+	T := c.R.IntRange(6, 60)
+	run := &MRun{Model: "GR4J", N: N, T: T}
+	refs := make([]*gr4jRef, N)
+	widths := map[int]bool{}
+	for i := 0; i < N; i++ {
+		x1, x2, x3, x4 := gr4jParams(c.R)
+		run.Sets = append(run.Sets, PSet{{x1}, {x2}, {x3}, {x4}})
+		run.Inputs = append(run.Inputs, [][]float64{rainSeries(c.R, T), petSeries(c.R, T)})
+		refs[i] = newGR4JRef(x1, x2, x3, x4)
+		widths[int(math.Ceil(x4))+int(math.Ceil(2*x4))] = true
+	}
+	var cuts []int
+	for k := c.R.IntRange(1, 3); k > 0; k-- {
+		cuts = append(cuts, c.R.IntRange(1, T-1))
+	}
+	cmode := ""
+	if c.R.Bool(0.5) {
+		cmode = []string{"guard-after", "guard-before", "malloc"}[c.R.Intn(3)]
+	}
+	c.Begin(map[string]interface{}{"model": "GR4J", "run": run, "window_ends": cuts, "segments_on_c_memory": cmode})
+	c.Class(fmt.Sprintf("multi/N%d/widths%d/c%v/cuts%d", N, len(widths), cmode != "", len(cuts)))
+	if len(widths) > 1 {
+		c.Tag("multicell:padded-rows")
+	}
+	if cmode != "" {
+		c.Tag("multicell:c-memory")
+	}
+	bounds := append([]int{0}, cuts...)
+	bounds = append(bounds, T)
+	sortInts(bounds)
+	var states [][]float64
+	for s := 0; s+1 < len(bounds); s++ {
+		a, b := bounds[s], bounds[s+1]
+		if a == b {
+			continue
+		}
+		seg := &MRun{Model: "GR4J", N: N, T: b - a, Sets: run.Sets, Inputs: sliceT(run.Inputs, a, b), States: states}
+		if states == nil {
+			p, err := Prepare(seg)
+			if err != nil {
+				c.Violate("prepare", "GR4J", err.Error())
+				return
+			}
+			seg.States = From2(p.States)
+		}
+		var so *MOut
+		var err error
+		if cmode != "" {
+			so, _, err = ExecuteC(seg, cmode)
+		} else {
+			so, err = Execute(seg)
+		}
+		if err != nil {
+			c.Violate("prepare", "GR4J", err.Error())
+			return
+		}
+		for i := 0; i < N; i++ {
+			for t := a; t < b; t++ {
+				want, _ := refs[i].step(run.Inputs[i][0][t], run.Inputs[i][1][t])
+				got := so.Out[i][0][t-a]
+				if !core.RelClose(got, want, 1e-9, 1e-12) {
+					x4 := run.Sets[i][3][0]
+					c.Violate("runoff-differs", "GR4J", fmt.Sprintf("cell %d of %d, t=%d (window %d starting at %d): runoff %v, published equations give %v (x4=%v; x4 of all cells %v)", i, N, t, s, a, got, want, x4, x4s(run)), "x4class", x4Class(x4))
+					return
+				}
+			}
+		}
+		c.Count("multicell_steps_compared", float64(N*(b-a)))
+		states = so.States
+	}
+}
+
+func x4s(r *MRun) []float64 {
+	var v []float64
+	for _, s := range r.Sets {
+		v = append(v, s[3][0])
+	}
+	return v
+}
+
+func sortInts(a []int) {
+	for i := 1; i < len(a); i++ {
+		for j := i; j > 0 && a[j] < a[j-1]; j-- {
+			a[j], a[j-1] = a[j-1], a[j]
+		}
+	}
 }
